@@ -27,7 +27,7 @@ fn dim(t: Tier) -> std::ops::RangeInclusive<usize> {
     1..=t.pick(20, 30)
 }
 
-fn strat_sym(t: Tier) -> BoxedStrategy<EvdCase> {
+pub fn strat_sym(t: Tier) -> BoxedStrategy<EvdCase> {
     (dim(t), prop::bool::weighted(0.3), prop_oneof![2 => Just(1.0), 3 => pow10(-12, 12)])
         .prop_flat_map(|(n, f32, scale)| {
             let eigs = prop_oneof![
@@ -66,7 +66,7 @@ fn strat_sym(t: Tier) -> BoxedStrategy<EvdCase> {
         .boxed()
 }
 
-fn prep(case: &EvdCase) -> (Mat, f64) {
+pub fn prep(case: &EvdCase) -> (Mat, f64) {
     if case.f32 {
         (to_f32_grid(&case.a), f32::EPSILON as f64)
     } else {
@@ -74,11 +74,11 @@ fn prep(case: &EvdCase) -> (Mat, f64) {
     }
 }
 
-fn sym_run<T: RealNumber>(case: &EvdCase, a: &Mat, eps: f64, ctx: &mut Ctx) -> Result<(), Fail> {
+pub fn sym_run<T: RealNumber, B: Build<T>>(case: &EvdCase, a: &Mat, eps: f64, ctx: &mut Ctx) -> Result<(), Fail> {
     let n = a.r;
     // the f32 grid may break exact symmetry by rounding: symmetrise the input itself
     let a = Mat::from_fn(n, n, |i, j| if i <= j { a.at(i, j) } else { a.at(j, i) });
-    let ma = <DenseB as Build<T>>::build(&a);
+    let ma = <B as Build<T>>::build(&a);
     let evd = match no_panic("evd(symmetric)", || ma.evd(true))? {
         Ok(x) => x,
         Err(e) => return fail("evd-sym/err", format!("evd(true) failed: {}", e)),
@@ -115,9 +115,9 @@ fn check_sym(case: &EvdCase, ctx: &mut Ctx) -> Result<(), Fail> {
     ctx.label_if(distinct < a.r, "repeated-eigenvalues");
     ctx.nontrivial(a.r >= 3);
     if case.f32 {
-        sym_run::<f32>(case, &a, eps, ctx)
+        sym_run::<f32, DenseB>(case, &a, eps, ctx)
     } else {
-        sym_run::<f64>(case, &a, eps, ctx)
+        sym_run::<f64, DenseB>(case, &a, eps, ctx)
     }
 }
 
@@ -167,7 +167,7 @@ fn eig_list(max_n: usize) -> BoxedStrategy<Vec<(f64, f64)>> {
         .boxed()
 }
 
-fn strat_general(t: Tier) -> BoxedStrategy<EvdCase> {
+pub fn strat_general(t: Tier) -> BoxedStrategy<EvdCase> {
     let nmax = *dim(t).end();
     let f = |f32: bool, class: &str, a: Mat, sp: Option<Vec<(f64, f64)>>, sim_cond: f64| EvdCase { f32, class: class.to_string(), scale: 1.0, a, spectrum: sp, sim_cond };
     let random = (1..=nmax, any::<bool>()).prop_flat_map(move |(n, ints)| if ints { int_mat(n, n, -5, 5).boxed() } else { unit_mat(n, n).boxed() }).prop_map(move |a| f(false, "random", a, None, 1.0));
@@ -234,10 +234,10 @@ fn strat_general(t: Tier) -> BoxedStrategy<EvdCase> {
     .boxed()
 }
 
-fn general_run<T: RealNumber>(case: &EvdCase, a: &Mat, eps: f64, ctx: &mut Ctx) -> Result<(), Fail> {
+pub fn general_run<T: RealNumber, B: Build<T>>(case: &EvdCase, a: &Mat, eps: f64, ctx: &mut Ctx) -> Result<(), Fail> {
     let n = a.r;
     let nf = n as f64;
-    let ma = <DenseB as Build<T>>::build(a);
+    let ma = <B as Build<T>>::build(a);
     let evd = match no_panic("evd(general)", || ma.evd(false))? {
         Ok(x) => x,
         Err(e) => return fail("evd-gen/err", format!("evd(false) failed: {}", e)),
@@ -326,9 +326,9 @@ fn check_general(case: &EvdCase, ctx: &mut Ctx) -> Result<(), Fail> {
     let sym = a.t() == a;
     ctx.nontrivial(a.r >= 3 && !sym);
     if case.f32 {
-        general_run::<f32>(case, &a, eps, ctx)
+        general_run::<f32, DenseB>(case, &a, eps, ctx)
     } else {
-        general_run::<f64>(case, &a, eps, ctx)
+        general_run::<f64, DenseB>(case, &a, eps, ctx)
     }
 }
 
